@@ -75,6 +75,9 @@ def _api_machine(ctx, quick, sim_len, n_sim):
     hashseeds = (0, 1, 2) if quick else tuple(range(16))
     api_machine.model_check(ctx, 3 if quick else 4)
     dom, seqs = api_machine.behaviours(ctx, 2 if quick else 3)
+    if len(seqs) > 15000:       # all behaviours of 3 calls are model checked; a seeded sample of them is replayed
+        random.Random(ctx.seed).shuffle(seqs)
+        seqs = seqs[:15000]
     cases = api_machine.cases_from(dom, seqs, 300000)
     dom, sims = api_machine.behaviours(ctx, sim_len, simulate=200, seed=ctx.seed + 1)
     cases += api_machine.cases_from(dom, sims[:n_sim], 400000)
